@@ -218,6 +218,7 @@ pub fn scenario(prop: &str, t: usize, r: usize, light: bool, cp: &dyn Fn(u8)) ->
       let specs = [ClaimSpec::Exp(exp.into()), ClaimSpec::Nbf(nbf.into()), ClaimSpec::Custom("data".into(), json!(msg))];
       // the parser also expects k further claims, all of them in the token (k around 64 and beyond: the time rules are two
       // of k + 2 rules)
+      let lookalikes = [ClaimSpec::Custom("\u{ff4e}\u{ff42}\u{ff46}".into(), Value::Null), ClaimSpec::Custom("\u{ff45}\u{ff58}\u{ff50}".into(), Value::Null), ClaimSpec::Custom("nbf\u{200b}".into(), Value::Null), ClaimSpec::Custom("e\u{200d}xp".into(), Value::Null), ClaimSpec::Custom("exp\u{fe0f}".into(), Value::Null)];
       let k = [0usize, 1, 5, 62, 63, 64, 65, 200][(t / 2 + r) % 8];
       let extra: Vec<ClaimSpec> = (0..k).map(|j| ClaimSpec::CustomOwned(format!("x{j}"), json!(j))).collect();
       let token = {
@@ -237,6 +238,13 @@ pub fn scenario(prop: &str, t: usize, r: usize, light: bool, cp: &dyn Fn(u8)) ->
       }
       for s in &extra {
         parser.check(s).map_err(|e| format!("harness: {}", e.text))?;
+      }
+      // accepting validators for claims whose names only LOOK like exp / nbf (full-width letters, zero-width characters):
+      // claims of their own, absent from this token - the time rules stay what they are
+      if (t + r) % 3 == 1 {
+        for s in &lookalikes {
+          let _ = parser.validate(s, VALIDATOR_ACCEPTS);
+        }
       }
       match (parser.parse(&token, &lk), bad) {
         (Err(_), true) | (Ok(_), false) => Ok(vec![]),
@@ -309,7 +317,9 @@ pub fn scenario(prop: &str, t: usize, r: usize, light: bool, cp: &dyn Fn(u8)) ->
       };
       cp(2);
       let mut parser = new_parser(p, Layer::Generic);
-      if let Some(f) = &footer {
+      // the footer is set before or after the expectations (independent settings: the order is nobody's business)
+      let footer_last = (t + r) % 3 == 0;
+      if let (Some(f), false) = (&footer, footer_last) {
         parser.footer(f);
       }
       if prop == "C15" {
@@ -319,6 +329,9 @@ pub fn scenario(prop: &str, t: usize, r: usize, light: bool, cp: &dyn Fn(u8)) ->
         if absent_case {
           parser.validate(&absent, REQUIRES_FINE).map_err(|e| format!("harness: {}", e.text))?;
         }
+      }
+      if let (Some(f), true) = (&footer, footer_last) {
+        parser.footer(f);
       }
       match (parser.parse(&token, &lk), bad || absent_case) {
         (Err(_), true) | (Ok(_), false) => Ok(vec![]),
@@ -920,6 +933,31 @@ fn long_lived(prop: &str, p: Proto, n: usize) -> Result<(), String> {
         }
         if prop == "C16" && VALIDATOR_CALLS.with(|c| c.get()) != k as u64 {
           return err("validator-calls", format!("{} validators registered for {} present claims, {} calls", k, k, VALIDATOR_CALLS.with(|c| c.get())));
+        }
+        if prop == "C15" && k > 0 {
+          // every expectation registered again through extend_check_claims with ANOTHER value (what is registered last
+          // counts, however many there are): the old token is refused now, a token with the new values accepted
+          let newer: Vec<ClaimSpec> = (0..k).map(|j| ClaimSpec::CustomOwned(format!("c{j}"), json!(format!("new-{j}")))).collect();
+          let token_new = {
+            let mut b = new_builder(p, Layer::Generic);
+            for s in &newer {
+              b.set(s).map_err(|e| format!("harness: {}", e.text))?;
+            }
+            b.build(&lk).map_err(|e| format!("build-failed: {} claims: {}", k, e.text))?
+          };
+          let mut parser = new_parser(p, Layer::Generic);
+          for s in &specs[..k] {
+            parser.check(s).map_err(|e| format!("harness: {}", e.text))?;
+          }
+          let entries: Vec<(String, Value)> = newer.iter().map(|s| (s.key().to_string(), s.expected())).collect();
+          if parser.extend_checks(&entries) {
+            if parser.parse(&token, &lk).is_ok() {
+              return err("mismatch-accepted", format!("{k} expectations replaced through extend_check_claims: the token with the OLD values was accepted"));
+            }
+            if let Err(e) = parser.parse(&token_new, &lk) {
+              return err("match-refused", format!("{k} expectations replaced through extend_check_claims: the token with the NEW values was refused: {}", e.text));
+            }
+          }
         }
         if let (Some(tb), true) = (&token_bad, prop != "C14") {
           let mut parser = new_parser(p, Layer::Generic);
